@@ -227,6 +227,9 @@ pub struct Report {
 
 const CHUNKS: usize = 32;
 
+/// Tape lengths written in the check modules are multiplied by this factor (see DESIGN.md B.1, tape exhaustion).
+const TAPE_SCALE: usize = 3;
+
 /// Resident memory of this process in bytes (Linux; 0 when it cannot be read).
 fn rss_bytes() -> u64 {
     std::fs::read_to_string("/proc/self/statm")
@@ -322,6 +325,8 @@ impl Report {
         } else {
             cases
         };
+        // experiment knob: tapes up to VERIF_TAPE_SCALE times as long as the phase asks for
+        let max_len = max_len * std::env::var("VERIF_TAPE_SCALE").ok().and_then(|v| v.parse::<usize>().ok()).unwrap_or(TAPE_SCALE);
         let t0 = Instant::now();
         let stop = AtomicBool::new(false);
         let next_chunk = AtomicUsize::new(0);
@@ -410,7 +415,13 @@ impl Report {
                             }
                             *current[chunk].lock().unwrap() = Some((Instant::now(), tape.clone()));
                             let mut case = Case { stats: &mut stats, counting: true, kf, property: id, strict };
+                            let _ = crate::tape::take_ran_out();
                             let res = f(&tape, &mut case);
+                            // how often the generator asked for more choices than the tape held (the rest of such
+                            // a case is all-simplest choices: a phase where this is frequent needs longer tapes)
+                            if crate::tape::take_ran_out() > 0 {
+                                case.label("generator:tape_ran_out");
+                            }
                             *current[chunk].lock().unwrap() = None;
                             if let Err(e) = res {
                                 if survey {
